@@ -37,7 +37,8 @@ MANIFEST = dict(
           "fragment unless duplicates are ignored; the cross-fragment duplicate check (as repaired) fires exactly when two "
           "fragments share an id (and the unrepaired form never fires - kept as a named theorem); a creation that fails at "
           "any point of its bracket leaves tree and indexes as before. Tied to /repo by exhaustive duplicate placements on "
-          "small models and by failure-point enumeration of creation requests in states reached by edit histories."),
+          "small models and by failure-point enumeration of creation requests in states reached by edit histories."
+          ' Creation requests are additionally predicted by the accessor model (Model/Accessor.lean: _create / new_uuid / ModelElement.__init__ with both roll-backs) step by step; uniqueness over every session of API calls is a theorem without freshness hypothesis.'),
     design_ref="§6 C04",
     note="Trusted: Lean kernel; harness duplicate injector (text-level edit of model files); uuid4 randomness is an input of the model.",
     technique="Lean 4 proof (index model: freshness, duplicate detection, creation bracket) + exhaustive placement enumeration and failure-point enumeration on the implementation",
